@@ -121,7 +121,8 @@ type filterSpec struct {
 
 type caseSpec struct {
 	Graph    []dag.Encoded `json:"graph"`
-	Src      string        `json:"src"`   // mem | oci | ocireopen | file | remote-api | remote-tags
+	Src      string        `json:"src"`   // mem | oci | ocireopen | ocifs | file | remote-api | remote-tags
+	Incomplete bool        `json:"incomplete"` // remote: the registry omits artifactType / annotations of some referrers (not judged with filters)
 	Page     int           `json:"page"`  // remote-api: the registry's cap on a referrers page (0 = none)
 	ClientN  int           `json:"clientN"` // remote: Repository.ReferrerListPageSize (0 = not set)
 	Split    bool          `json:"split"` // remote-api: the registry serves pages shorter than cap / n, Link while items remain
@@ -389,7 +390,7 @@ func buildSource(g *dag.Graph, spec *caseSpec) (*built, error) {
 	case "mem":
 		m := memory.New()
 		st, gt = m, m
-	case "oci", "ocireopen":
+	case "oci", "ocireopen", "ocifs":
 		d, err := os.MkdirTemp("", "c03-oci-")
 		if err != nil {
 			return nil, err
@@ -434,6 +435,15 @@ func buildSource(g *dag.Graph, spec *caseSpec) (*built, error) {
 	if err := st.Tag(ctx, sd, startTag(spec.Start)); err != nil {
 		cleanup()
 		return nil, fmt.Errorf("tag start %d: %w", spec.Start, err)
+	}
+	if spec.Src == "ocifs" {
+		// the read-only store (its own loadIndex) over the layout just written
+		ro, err := oci.NewFromFS(ctx, os.DirFS(dir))
+		if err != nil {
+			cleanup()
+			return nil, fmt.Errorf("NewFromFS: %w", err)
+		}
+		gt = ro
 	}
 	if spec.Src == "ocireopen" {
 		o, err := oci.New(dir)
@@ -638,6 +648,18 @@ func newDst(kind string) (oras.Target, func(), error) {
 		}
 		return o, func() { os.RemoveAll(d) }, nil
 	}
+	if kind == "file" {
+		d, err := os.MkdirTemp("", "c03-dstf-")
+		if err != nil {
+			return nil, nil, err
+		}
+		f, err := file.New(d)
+		if err != nil {
+			os.RemoveAll(d)
+			return nil, nil, err
+		}
+		return f, func() { f.Close(); os.RemoveAll(d) }, nil
+	}
 	return memory.New(), func() {}, nil
 }
 
@@ -662,7 +684,20 @@ func runCase(spec *caseSpec) {
 	}
 	fs := compileFilters(spec.Filters)
 	id := run.NewID()
-	fail := func(sig, msg string) { run.OracleFail(id, sig, msg, spec) }
+	// a registry that omits artifactType / annotations in its referrers listing is outside the
+	// property (the first filter on a ReferrerLister judges the served fields): with filters such a
+	// case is run for the correspondence only
+	notJudged := spec.Incomplete && isRemote(spec.Src) && len(fs) > 0
+	fail := func(sig, msg string) {
+		if notJudged && sig != "unexpected-error" && sig != "copy-hang" && sig != "predecessors-missing" && sig != "predecessor-unknown" {
+			run.Count("not-judged:" + sig)
+			return
+		}
+		run.OracleFail(id, sig, msg, spec)
+	}
+	if notJudged {
+		run.Count("not-judged-cases")
+	}
 	run.Count("src=" + spec.Src)
 	run.Count(fmt.Sprintf("filters=%d", len(fs)))
 	switch {
@@ -851,6 +886,10 @@ func runCase(spec *caseSpec) {
 			sort.Ints(got)
 			want := filteredPreds(g, n.ID, fs)
 			if idsString(got) != idsString(want) {
+				if notJudged {
+					run.Count("not-judged:filter-exact")
+					continue
+				}
 				run.OracleFail(fid, "filter-exact", fmt.Sprintf("node %d: followed predecessors %v, those whose manifest satisfies the filter are %v (source %s)",
 					n.ID, got, want, spec.Src), spec)
 			}
@@ -859,7 +898,7 @@ func runCase(spec *caseSpec) {
 
 	// ---- a remote source asked for one artifact type (what a ReferrerLister offers): the
 	// registry may or may not filter itself; either way exactly the referrers of that type come back
-	if remoteTruth {
+	if remoteTruth && !spec.Incomplete {
 		if rl, ok := b.store.(registry.ReferrerLister); ok {
 			for _, n := range g.Nodes {
 				tp := truePreds(g, n.ID)
@@ -1250,7 +1289,8 @@ func randomGraph(r *common.Rand) *dag.Graph {
 
 func randomSpec(r *common.Rand, g *dag.Graph) *caseSpec {
 	spec := &caseSpec{Graph: g.Encode()}
-	spec.Src = common.Pick(r, []string{"mem", "oci", "ocireopen", "ocireopen", "file", "remote-api", "remote-tags"})
+	spec.Src = common.Pick(r, []string{"mem", "oci", "ocireopen", "ocireopen", "ocifs", "file", "remote-api", "remote-tags"})
+	spec.Incomplete = isRemote(spec.Src) && r.Chance(1, 5)
 	spec.Page = common.Pick(r, []int{0, 1, 2, 2, 3})
 	// client page size independent of the registry's cap: unset, smaller, equal, larger
 	spec.ClientN = common.Pick(r, []int{0, 0, 1, 2, 3, 10, 100})
@@ -1303,7 +1343,7 @@ func randomSpec(r *common.Rand, g *dag.Graph) *caseSpec {
 	spec.PermSeed = r.U64() % 1000000
 	spec.Conc = r.Intn(5)
 	spec.Raw = r.Chance(1, 3)
-	spec.Dst = common.Pick(r, []string{"mem", "mem", "oci"})
+	spec.Dst = common.Pick(r, []string{"mem", "mem", "oci", "file"})
 	spec.DstRef = common.Pick(r, []string{"", "copied", "v2"})
 	return spec
 }
@@ -1395,7 +1435,7 @@ func coverageFloors() {
 			floorViolations = append(floorViolations, fmt.Sprintf("%s: %d (must be 0)", key, run.Dist[key]))
 		}
 	}
-	for _, k := range []string{"src=mem", "src=oci", "src=ocireopen", "src=file", "src=remote-api", "src=remote-tags"} {
+	for _, k := range []string{"src=mem", "src=oci", "src=ocireopen", "src=ocifs", "src=file", "src=remote-api", "src=remote-tags"} {
 		need(k, 100)
 	}
 	need("graph=fan", 100)
